@@ -16,13 +16,15 @@ HARD_TIMEOUT = 60
 EXHAUSTIVE = {"quick": False, "thorough": False}
 RULE = ("a case is one branching history over vectors, lists, queues, maps, sets, nil and their "
         "transients; every operation names the earlier results it uses by position. Quick: all "
-        "mutator sequences of length <= 3 per collection kind over the keys 1 / 1.0 / an object "
-        "whose hash collides with 1 (each followed by a battery of reads on the latest and on the "
-        "first value) + ~2000 random histories of length <= 25; thorough: length <= 4 exhaustive + "
-        "random histories of length <= 60 on collections of 33..70 elements. Every result is "
-        "observed when produced and re-read after the whole history; transients are read through "
-        "persistent! at the end. A case is non-trivial when at least two operations return "
-        "collections; distinct = distinct JSON encoding.")
+        "mutator sequences of length <= 2 per collection kind and start value, each mutator applied "
+        "to the latest value or to the first one, over the keys 1 / 1.0 / an object whose hash "
+        "collides with 1 (each followed by a battery of reads) + a seeded sample of 600 sequences "
+        "of length 3 + 1000 random histories of length <= 25 + 20 on collections of 33..73 elements; "
+        "thorough: all sequences of length <= 3, 30000 of length 4, 20000 random, 3000 of length "
+        "<= 60 on collections of 33..73 elements (pyrsistent's 32-wide nodes and the vector tail "
+        "are crossed). Every result is observed when produced and re-read after the whole history; "
+        "transients are read through persistent! at the end. A case is non-trivial when at least "
+        "two operations return collections; distinct = distinct JSON encoding.")
 TRUSTED = [
     "pyrsistent (pvector + evolver, plist, pdeque) and immutables (Map, MapMutation) are Section "
     "variables of type Libs with the laws H_pvec_* H_evolver_* H_plist_* H_pdeque_* H_map_* H_mut_* "
@@ -184,7 +186,7 @@ def coq_out(o):
             return "(OFail 9%N)"
         return "(OFail 7%N)"
     obs = g_list(g_obs(x) for x in o["obs"])
-    st = g_list("true" if b else "false" for b in o["stable"])
+    st = "true" if all(o["stable"]) and len(o["stable"]) == len(o["obs"]) else "false"
     cells = g_list(g_coll(c[0], c[1]) for c in o["cells"])
     return f"(OOut {obs} {st} {cells})"
 
@@ -429,15 +431,14 @@ KW = lambda n: {"k": n}
 
 
 def battery(kind, last, root):
-    """reads appended to every exhaustive case: on the latest value and on the first one"""
-    ops = []
-    for t in dict.fromkeys([last, root]):
-        ops += [["count", t], ["seq", t], ["meta", t], ["get", t, K1], ["get", t, K3, KW(9)],
-                ["contains", t, K2]]
-        if kind in "VLQ":
-            ops += [["peek", t], ["nth", t, 0, KW(9)], ["nth", t, 1]]
-        if kind == "V":
-            ops += [["rseq", t], ["get", t, 0], ["contains", t, 1]]
+    """reads appended to every exhaustive case, on the latest value (every earlier value is
+    re-read by the worker anyway), and a comparison with the first one"""
+    t = last
+    ops = [["count", t], ["seq", t], ["meta", t], ["get", t, K1], ["get", t, K3, KW(9)], ["contains", t, K2]]
+    if kind in "VLQ":
+        ops += [["peek", t], ["nth", t, 1, KW(9)], ["nth", t, 0]]
+    if kind == "V":
+        ops += [["rseq", t], ["contains", t, 1]]
     ops.append(["eq", last, root])
     return ops
 
@@ -625,11 +626,21 @@ def random_history(rng, length, big=0):
 def cases(tier, rng):
     quick = tier == "quick"
     for kind in "VLQMS":
+        # every sequence of <= 2 mutators, each applied to the latest value or to the first one
         yield from exhaustive(kind, 2, root_actions=True)
-        yield from exhaustive(kind, 3 if quick else 4, root_actions=not quick)
-    for _ in range(2000 if quick else 20000):
+    if quick:
+        # length 3: a seeded sample (the thorough tier enumerates them all)
+        longer = [c for kind in "VLQMS" for c in exhaustive(kind, 3, root_actions=False)
+                  if len(c["ops"]) > 3 + len(battery(kind, 0, 0))]
+        yield from rng.sample(longer, 600)
+    else:
+        for kind in "VLQMS":
+            yield from (c for c in exhaustive(kind, 3, root_actions=True))
+        longer = [c for kind in "VLQMS" for c in exhaustive(kind, 4, root_actions=False)]
+        yield from rng.sample(longer, 30000)
+    for _ in range(1000 if quick else 20000):
         yield random_history(rng, rng.randint(4, 25))
-    for _ in range(40 if quick else 3000):
+    for _ in range(20 if quick else 3000):
         yield random_history(rng, rng.randint(20, 40 if quick else 60), big=rng.choice([3, 8, 40]))
 
 
